@@ -289,6 +289,115 @@ var vc16Logger = func() logrus.FieldLogger {
 	return l
 }()
 
+func (p *vc16Pool) clone(log *vc16Log) *vc16Pool {
+	c := &vc16Pool{log: log, types: p.types, idle: map[arvados.InstanceType]int{}, booting: map[arvados.InstanceType]int{}, running: map[string]time.Time{},
+		atQuota: p.atQuota, listZero: p.listZero, startFail: p.startFail, createOK: p.createOK}
+	for k, v := range p.idle {
+		c.idle[k] = v
+	}
+	for k, v := range p.booting {
+		c.booting[k] = v
+	}
+	for k, v := range p.running {
+		c.running[k] = v
+	}
+	return c
+}
+
+func (q *vc16Queue) clone(log *vc16Log) *vc16Queue {
+	c := &vc16Queue{log: log, ents: map[string]container.QueueEnt{}, updated: q.updated, lockOK: q.lockOK, unlockOK: q.unlockOK}
+	for k, v := range q.ents {
+		c.ents[k] = v
+	}
+	return c
+}
+
+// vc16Fair returns an unbiased n-bit number (rapid's integer generators prefer
+// small values and the bounds).
+func vc16Fair(t *rapid.T, label string, bits int) int {
+	v := 0
+	for _, b := range rapid.SliceOfN(rapid.Bool(), bits, bits).Draw(t, label) {
+		v <<= 1
+		if b {
+			v |= 1
+		}
+	}
+	return v
+}
+
+// vc16BigPrios returns n distinct priorities in the form the API server
+// produces: (request priority 1..1000)<<50 minus the creation time in
+// milliseconds. Most containers share one request priority and were created
+// 1..200 ms apart, so their priorities differ by 1..200 at magnitudes up to
+// 2^60; the rest belong to requests with a neighbouring or unrelated priority.
+func vc16BigPrios(t *rapid.T, n int) []int64 {
+	reqs := []int{1000, 999, 513, 512, 768, 600, 257, 256, 129, 128, 64, 17, 8, 4, 2, 1}
+	req := reqs[vc16Fair(t, "reqPrioBits", 4)]
+	if vc16Pct(t, "reqPrioAny", 25) {
+		req = 1 + vc16Fair(t, "reqPrioAnyBits", 10)%1000
+	}
+	// creation times between 2021 and 2027, in ms since the epoch
+	created := int64(1609459200000) + int64(vc16Fair(t, "createdBits", 30))*176
+	steps := []int64{1, 1, 1, 2, 3, 5, 7, 16, 31, 64, 100, 127, 128, 129, 199, 200}
+	out := make([]int64, n)
+	for i := range out {
+		created += steps[vc16Fair(t, "stepBits", 4)]
+		r := int64(req)
+		switch x := vc16Fair(t, "otherReqBits", 4); {
+		case x == 0 && req > 1:
+			r = int64(req) - 1
+		case x == 1 && req < 1000:
+			r = int64(req) + 1
+		case x == 2:
+			r = 1 + int64(vc16Fair(t, "otherReqAnyBits", 10)%1000)
+		}
+		out[i] = r<<50 - created
+	}
+	// the order of creation is unrelated to the container numbering
+	perm := rapid.Permutation(out).Draw(t, "bigPrioOrder")
+	return perm
+}
+
+// vc16BigLabels measures what the large-priority cases contain.
+func vc16BigLabels(ctrs []*vc16Ctr) []string {
+	labels := []string{"bigprio"}
+	near, collapse, closeAny, top := false, false, false, false
+	for i, a := range ctrs {
+		if a.prio >= 1<<59 {
+			top = true
+		}
+		for _, b := range ctrs[i+1:] {
+			d := a.prio - b.prio
+			if d < 0 {
+				d = -d
+			}
+			if a.prio < 1<<49 || b.prio < 1<<49 || d == 0 || d > 200 {
+				continue
+			}
+			closeAny = true
+			if a.waiting && b.waiting && a.typ == b.typ {
+				near = true
+				if float64(a.prio) == float64(b.prio) {
+					collapse = true
+				}
+			}
+		}
+	}
+	if closeAny {
+		labels = append(labels, "bigprio:pair-1..200-apart")
+	}
+	if near {
+		labels = append(labels, "bigprio:waiting-same-type-pair-1..200-apart")
+	}
+	if collapse {
+		labels = append(labels, "bigprio:waiting-same-type-pair-equal-as-float64")
+	}
+	if top {
+		labels = append(labels, "bigprio:>=2^59")
+	}
+	return labels
+}
+
 func TestVerifC16Order(t *testing.T) {
 	defer stats.Flush()
 	rapid.Check(t, func(t *rapid.T) {
@@ -297,8 +406,9 @@ func TestVerifC16Order(t *testing.T) {
 		for i := range types {
 			types[i] = test.InstanceType(i + 1)
 		}
-		log := &vc16Log{}
-		pool := &vc16Pool{log: log, types: types, idle: map[arvados.InstanceType]int{}, booting: map[arvados.InstanceType]int{}, running: map[string]time.Time{}}
+		// The pool and queue are mutated by a pass; they are rebuilt from the
+		// drawn description for every repetition (see the end of this function).
+		pool := &vc16Pool{types: types, idle: map[arvados.InstanceType]int{}, booting: map[arvados.InstanceType]int{}, running: map[string]time.Time{}}
 		var poolDesc []string
 		for _, it := range types {
 			pool.idle[it] = rapid.SampledFrom([]int{0, 0, 1, 1, 2, 3}).Draw(t, "idle")
@@ -322,7 +432,16 @@ func TestVerifC16Order(t *testing.T) {
 
 		n := rapid.SampledFrom([]int{4, 2, 3, 5, 6, 7, 8, 1, 6, 8}).Draw(t, "nContainers")
 		maxPrio := rapid.SampledFrom([]int{1, 2, 3, 4, 8, 1000}).Draw(t, "maxPrio")
-		queue := &vc16Queue{log: log, ents: map[string]container.QueueEnt{}, updated: time.Unix(2000000000, 0), lockOK: map[string]bool{}, unlockOK: map[string]bool{}}
+		// Round 3: priorities as the API server computes them,
+		// (request priority 1..1000)<<50 - creation time in ms: int64 values up
+		// to 2^60, distinct, a few units apart (vc16BigPrios). Fair bits decide
+		// the share (rapid's integer draws are biased to the low end).
+		big := vc16Fair(t, "bigPrioBits", 10)%10 < 3
+		var bigPrios []int64
+		if big {
+			bigPrios = vc16BigPrios(t, n)
+		}
+		queue := &vc16Queue{ents: map[string]container.QueueEnt{}, updated: time.Unix(2000000000, 0), lockOK: map[string]bool{}, unlockOK: map[string]bool{}}
 		ctrs := make([]*vc16Ctr, n)
 		for i := range ctrs {
 			c := &vc16Ctr{uuid: test.ContainerUUID(i + 1)}
@@ -337,6 +456,20 @@ func TestVerifC16Order(t *testing.T) {
 				c.prio = 1
 			}
 			c.typ = rapid.IntRange(0, nTypes-1).Draw(t, "type")
+			bigWaiting := false
+			if big {
+				if !(c.prio == 0 && vc16Pct(t, "bigKeepHeld", 50)) {
+					c.prio = bigPrios[i]
+				}
+				// most containers of such a case wait, Locked, for the same type
+				if vc16Pct(t, "bigSameType", 60) {
+					c.typ = 0
+				}
+				if vc16Pct(t, "bigWaiting", 60) {
+					c.state = arvados.ContainerStateLocked
+					bigWaiting = true
+				}
+			}
 			switch c.state {
 			case arvados.ContainerStateRunning:
 				if vc16Pct(t, "runningHasProc", 85) {
@@ -344,6 +477,7 @@ func TestVerifC16Order(t *testing.T) {
 				}
 			case arvados.ContainerStateLocked, arvados.ContainerStateQueued:
 				switch r := rapid.IntRange(0, 99).Draw(t, "proc"); {
+				case bigWaiting:
 				case r >= 40 && r < 48:
 					c.proc = 1
 				case r >= 48 && r < 54:
@@ -377,18 +511,55 @@ func TestVerifC16Order(t *testing.T) {
 		}
 		desc.WriteString("]")
 
+		// runQueue sorts a slice filled in map iteration order with an unstable
+		// sort: the same snapshot is decided several times, each time on a fresh
+		// copy of the generated pool and queue, and every pass must satisfy the
+		// oracle. (One pass for the small-priority cases keeps their cost as it was.)
+		reps := 1
+		if big {
+			reps = 6
+		}
 		ctx := ctxlog.Context(context.Background(), vc16Logger)
-		sch := New(ctx, queue, pool, nil, time.Hour, time.Hour)
-		base := runtime.NumGoroutine()
-		sch.runQueue()
-		vc16WaitGoroutines(t, base)
-		sch.wakeup.Stop()
+		var labels []string
+		var calls []vc16Call
+		nontrivial := false
+		seenLabel := map[string]bool{}
+		orders := map[string]bool{}
+		for rep := 0; rep < reps; rep++ {
+			log := &vc16Log{}
+			p := pool.clone(log)
+			q := queue.clone(log)
+			sch := New(ctx, q, p, nil, time.Hour, time.Hour)
+			base := runtime.NumGoroutine()
+			sch.runQueue()
+			vc16WaitGoroutines(t, base)
+			sch.wakeup.Stop()
 
-		log.mu.Lock()
-		calls := append([]vc16Call(nil), log.calls...)
-		log.mu.Unlock()
-		labels, nontrivial := vc16CheckLog(t, ctrs, types, pool.atQuota, calls, desc.String())
+			log.mu.Lock()
+			calls = append([]vc16Call(nil), log.calls...)
+			log.mu.Unlock()
+			ls, nt := vc16CheckLog(t, ctrs, types, pool.atQuota, calls, fmt.Sprintf("%s (pass %d of %d over the same snapshot)", desc.String(), rep+1, reps))
+			nontrivial = nontrivial || nt
+			for _, l := range ls {
+				if !seenLabel[l] {
+					seenLabel[l] = true
+					labels = append(labels, l)
+				}
+			}
+			orders[vc16CallsString(calls)] = true
+		}
+		if big {
+			labels = append(labels, vc16BigLabels(ctrs)...)
+			if len(orders) > 1 {
+				// legitimately different call logs for one snapshot (ties, held
+				// or non-waiting containers visited in another order)
+				labels = append(labels, "bigprio:passes-differ")
+			}
+		}
 		stats.Case(stats.FP(desc.String()), nontrivial, labels...)
+		if big && stats.WantSample("bigprio") {
+			stats.Sample("bigprio", map[string]interface{}{"case": desc.String(), "calls": vc16CallsString(calls)})
+		}
 		for _, l := range labels {
 			if (l == "dontstart-blocked-lower" || l == "quota-unlock-tail" || l == "started-in-order>=2") && stats.WantSample(l) {
 				stats.Sample(l, map[string]interface{}{"case": desc.String(), "calls": vc16CallsString(calls)})
